@@ -154,7 +154,7 @@ def main():
             fc["failAt"] = W + d
             fcases.append(fc)
     if not ck.thorough: fcases = fcases[:96]
-    fout = run_cases(lr.drv, fcases, jobs=64)
+    fout = run_cases(lr.drv, fcases, jobs=64, per_chunk=2)     # each case sleeps 4.1 s
     for c, o in zip(fcases, fout):
         ck.count({"failAt": c["failAt"], "ops": c["ops"], "s": c["state"]})
         lr.stats["purge_fault_cases"] += 1
